@@ -83,6 +83,9 @@ type crEnv struct {
 	results  []string
 	cancels  []context.CancelFunc
 	activity atomic.Int64
+	// tr=quic (c18quic.go)
+	fq      map[int]*fqQuery
+	fqConns []*fqConn
 }
 
 type crConn struct {
@@ -209,6 +212,9 @@ func (e *crEnv) quiesce() {
 
 func runCloseRace(id string, parts []string) string {
 	f := hx.Fields(parts)
+	if f["tr"] == "quic" {
+		return runCloseRaceQuic(id, f)
+	}
 	env := &crEnv{honour: f["dm"] == "honour", queries: map[int]*crQuery{}}
 	it := time.Duration(hx.MustAtoi(f["it"])) * time.Millisecond
 	maxs := hx.MustAtoi(f["max"])
